@@ -18,6 +18,7 @@ import (
 	"crypto/tls"
 	"crypto/x509"
 	"crypto/x509/pkix"
+	"encoding/asn1"
 	"encoding/base64"
 	"encoding/pem"
 	"fmt"
@@ -107,6 +108,9 @@ type vC09Spec struct {
 	Server   bool   // ExtKeyUsage serverAuth only (else clientAuth)
 	IsCA     bool
 	NoExtras bool
+	// FirstCN: the subject carries TWO commonName attributes, this one first
+	// and CN last (Go's parser reports the last one as Subject.CommonName)
+	FirstCN string
 }
 
 func vC09Template(s vC09Spec) *x509.Certificate {
@@ -126,6 +130,10 @@ func vC09Template(s vC09Spec) *x509.Certificate {
 	}
 	if !s.NoExtras {
 		t.Subject.ExtraNames = []pkix.AttributeTypeAndValue{{Type: testutil.AuthVersionOID, Value: "v0.0.1"}}
+	}
+	if s.FirstCN != "" {
+		cnOID := asn1.ObjectIdentifier{2, 5, 4, 3}
+		t.Subject = pkix.Name{ExtraNames: []pkix.AttributeTypeAndValue{{Type: cnOID, Value: s.FirstCN}, {Type: cnOID, Value: s.CN}, {Type: testutil.AuthVersionOID, Value: "v0.0.1"}}}
 	}
 	if s.IsCA {
 		t.IsCA = true
@@ -217,7 +225,7 @@ type vC09Registry struct {
 	answered int64
 }
 
-var vC09Kinds = []string{"valid", "valid2", "revoked", "expired", "future", "serverauth", "ca"}
+var vC09Kinds = []string{"valid", "valid2", "revoked", "expired", "future", "serverauth", "ca", "twocn"}
 
 func vC09BuildRegistry(seed int64) (*vC09Registry, error) {
 	key := sdk.NewKVStoreKey(vcerttypes.StoreKey)
@@ -277,6 +285,10 @@ func vC09BuildRegistry(seed int64) (*vC09Registry, error) {
 				spec.Server = true
 			case "ca":
 				spec.IsCA = true
+			case "twocn":
+				// published by this account, valid in every respect; its subject
+				// names the NEXT account in a first commonName attribute
+				spec.FirstCN = sdk.AccAddress(vs.NewRand(seed, uint64(0xC0910+(a+1)%4)).Bytes(20)).String()
 			}
 			der, err := vC09SelfSigned(spec, k)
 			if err != nil {
